@@ -30,6 +30,11 @@ ASSUMPTIONS = [
 ]
 
 
+# the named constructors and the sets their docstrings name ("return xy plane", "return x axis")
+NAMED_PLANES = {"xy_plane": (F(0), F(0), F(1)), "yz_plane": (F(1), F(0), F(0)), "xz_plane": (F(0), F(1), F(0))}
+NAMED_LINES = {"x_axis": (F(1), F(0), F(0)), "y_axis": (F(0), F(1), F(0)), "z_axis": (F(0), F(0), F(1))}
+
+
 def plane_desc(case):
     """exact (p, n) of the plane a case describes"""
     k = case[0]
@@ -47,6 +52,8 @@ def plane_desc(case):
         return p1, X.cross(X.sub(p2, p1), X.sub(p3, p1))
     if k == "PVV":
         return case[1], X.cross(case[2], case[3])
+    if k == "NAMED":
+        return (F(0), F(0), F(0)), NAMED_PLANES[case[1]]
     raise ValueError(k)
 
 
@@ -62,6 +69,8 @@ def construct(case, G, ctype=float):
         return G.Plane(B.pt(case[1], ctype), B.pt(case[2], ctype), B.pt(case[3], ctype))
     if k == "PVV":
         return G.Plane(B.pt(case[1], ctype), B.vec(case[2], ctype), B.vec(case[3], ctype))
+    if k == "NAMED":
+        return getattr(G.Plane, case[1])()
     raise ValueError(k)
 
 
@@ -167,7 +176,8 @@ def check_plane(case, ctx, G):
 
 
 def check_line(case, ctx, G):
-    _k, p, d = case
+    _k, p, d = case[:3]
+    named = case[3] if len(case) > 3 else None
     cls = "line/zeros%d%s" % (sum(1 for x in d if x == 0), "/neglead" if next(x for x in d if x != 0) < 0 else "")
     ctx.cls(cls)
     if _flags(d):
@@ -188,6 +198,11 @@ def check_line(case, ctx, G):
     s_u = step("parametric", L1.parametric)
     L4 = step("Line(*parametric())", lambda: G.Line(s_u[0], s_u[1]))
     Ls = [("Line(p,q)", L1), ("Line(p,q-p)", L2), ("Line(pv,d)", L3), ("Line(*parametric())", L4)]
+    if named:
+        # p is a point of the named axis other than the origin, d a multiple of its direction
+        L5 = step("Line.%s()" % named, getattr(G.Line, named))
+        s5 = step("Line.%s().parametric" % named, L5.parametric)
+        Ls += [("Line.%s()" % named, L5), ("Line(*Line.%s().parametric())" % named, step("Line(*parametric())", lambda: G.Line(s5[0], s5[1])))]
     off = X.add(X.add(p, X.mul(F(1, 2), d)), X.mul(F(1, 8), X.perp2(d)[0]))
     for (na, la), (nb, lb) in itertools.permutations(Ls, 2):
         if step("%s == %s" % (na, nb), lambda: la == lb) is not True:
@@ -301,11 +316,25 @@ def enum_dirs(shard, nshards):
                 yield ("LINE", (F(1), F(-2), F(1, 2)), dd)
 
 
+def enum_named(shard, nshards):
+    i = 0
+    for name in sorted(NAMED_PLANES):
+        i += 1
+        if i % nshards == shard:
+            yield ("NAMED", name)
+    for name, d in sorted(NAMED_LINES.items()):
+        for t, k in ((F(0), F(1)), (F(-5, 2), F(-3)), (F(7), F(1, 4))):
+            i += 1
+            if i % nshards == shard:
+                yield ("LINE", X.mul(t, d), X.mul(k, d), name)
+
+
 def strata(tier):
     n = 600 if tier == "quick" else 20000
     return [
         Stratum("enum-general-form", "enum", enum_gf),
         Stratum("enum-directions", "enum", enum_dirs),
+        Stratum("named-constructors", "enum", enum_named),
         Stratum("point-normal", "hyp", gen_pn(), n),
         Stratum("general-form", "hyp", gen_gf(), n),
         Stratum("three-points/two-vectors", "hyp", gen_3p(), n),
